@@ -162,3 +162,47 @@ Theorem C13_turbulence_phase_equivariant_refuted : exists px py ox oy dx dy ex e
              (turb_device_sample px py ox oy region t sx sy).
 Proof. exact turb_device_sample_refuted. Qed.
 Print Assumptions C13_turbulence_phase_equivariant_refuted.
+
+(* ------------------------------------------------------------------ second pass: the remaining position-dependent pieces
+   translate_checked, tile_origin, feimage_pos, scale_coordinates_q, pattern_shader_ts: Gen/LeafFilterPos.v (filter/mod.rs,
+   path.rs); filter_to_int_rect: Gen/LeafRender.v (region and primitive sub-regions use the same conversion). *)
+Theorem C13_subregion_clip_equivariant : forall r o ex ey,
+  translate_checked (ishift ex ey r) (ishift ex ey o) = translate_checked r o.
+Proof. exact translate_checked_frame_invariant. Qed.
+Print Assumptions C13_subregion_clip_equivariant.
+
+Theorem C13_tile_origin_equivariant : forall input_region region ex ey,
+  tile_origin (ishift ex ey input_region) (ishift ex ey region) = tile_origin input_region region.
+Proof. exact tile_origin_frame_invariant. Qed.
+Print Assumptions C13_tile_origin_equivariant.
+
+Theorem C13_feimage_placement_equivariant : forall ox oy dx dy ex ey sub region,
+  feimage_device_pos (ox + dx - ex) (oy + dy - ey) (ishift ex ey sub) (ishift ex ey region) =
+  ((fst (feimage_device_pos ox oy sub region) + dx)%Z, (snd (feimage_device_pos ox oy sub region) + dy)%Z).
+Proof. exact feimage_device_pos_equivariant. Qed.
+Print Assumptions C13_feimage_placement_equivariant.
+
+Theorem C13_offset_scaling_invariant : forall hyp dx dy t ex ey,
+  offset_of hyp dx dy (ts_shift ex ey t) = offset_of hyp dx dy t.
+Proof. exact offset_of_frame_invariant. Qed.
+Print Assumptions C13_offset_scaling_invariant.
+
+Theorem C13_pattern_phase : forall T pattern_ts rx ry sx sy dx dy x y,
+  map_x (pattern_device_ts (ts_shift dx dy T) pattern_ts rx ry sx sy) x y
+    == map_x (pattern_device_ts T pattern_ts rx ry sx sy) x y + inject_Z dx /\
+  map_y (pattern_device_ts (ts_shift dx dy T) pattern_ts rx ry sx sy) x y
+    == map_y (pattern_device_ts T pattern_ts rx ry sx sy) x y + inject_Z dy.
+Proof. exact pattern_phase_equivariant. Qed.
+Print Assumptions C13_pattern_phase.
+
+(* exact in the Q idealisation; in f32 an edge within an ulp of an integer may flip: class filter-region-ulp *)
+Theorem C13_subregion_equivariant : forall b ex ey, small_bbox b -> small_bbox (qshift ex ey b) ->
+  filter_to_int_rect (qshift ex ey b) = option_map (ishift ex ey) (filter_to_int_rect b).
+Proof. exact subregion_equivariant. Qed.
+Print Assumptions C13_subregion_equivariant.
+
+Example C13_nv_second_pass :
+  translate_checked (mk_irect (-60) (-70) 40 30) (mk_irect (-80) (-80) 600 600) = Some (mk_irect 20 10 40 30) /\
+  tile_origin (mk_irect (-71) (-84) 40 30) (mk_irect (-91) (-94) 600 600) = Some (20%Z, 10%Z) /\
+  feimage_device_pos (-120) (-120) (mk_irect 150 160 40 30) (mk_irect 0 0 300 300) = (30%Z, 40%Z).
+Proof. repeat split; vm_compute; reflexivity. Qed.
